@@ -921,6 +921,10 @@ func (e *Engine) makeInterface(st *State, v Val, T types.Type) Val {
 	tb := e.tb
 	tag := tb.Int(e.typeTag(T))
 	ls := Leaves(T)
+	// an error value of a type without Cause method is its own cause (pkg/errors.Cause)
+	if ms := e.Prog.MethodSets.MethodSet(T); ms.Lookup(nil, "Error") != nil && ms.Lookup(nil, "Cause") == nil && len(ls) == 1 && ls[0].Sort == SInt && v.Ann == nil {
+		e.assumeQuiet(st, tb.And(tb.Eq(tb.App("errcause_tag", SInt, tag, v.T[0]), tag), tb.Eq(tb.App("errcause_val", SInt, tag, v.T[0]), v.T[0])))
+	}
 	if len(ls) == 1 && v.Elems == nil && v.Ann == nil && ls[0].Sort == SInt {
 		return Val{T: []*Term{tag, v.T[0]}, Ann: map[string]Ann{"": &IfaceX{Dyn: T}}}
 	}
